@@ -1,6 +1,6 @@
 """C09 -- evaluation leaves the machine clean."""
 import json, collections
-import vlib, props, semcheck
+import vlib, props, semcheck, vmcheck
 
 
 def run(tier, replay=None):
@@ -35,6 +35,12 @@ def run(tier, replay=None):
             ck.violation("loop storage grows with the iteration count: %s with n=%d peak sp %d / stack %d, n=%d peak sp %d / stack %d: %s" % (
                 k, a.session["meta"]["n"], pa, la, b.session["meta"]["n"], pb, lb, " ; ".join(b.texts)[:300]), semcheck.replay_case(b))
     ck.part("bounded loop storage", pairs_compared=compared)
+    # machine level: the compiled code must leave the *intended* VM clean (locates compiler-side leaks), and the real VM's
+    # (ip, sp, frames, closures) must follow the intended VM instruction by instruction
+    sl = [v.session for v in vs if v.status == "accept" and v.session.get("mode") != "discard" and v.session.get("meta", {}).get("n", 0) <= 6]
+    n, agree, viol = vmcheck.validate(ck, sl[:1500], "CalcVM: compiled code leaves the intended VM clean; real instruction traces followed")
+    for desc, case, kind in viol:
+        ck.violation(desc, case)
     ck.cov["rule"] = props.c09_rule
     ck.assumptions += ["CalcSem.tla (NoResidue invariant, continuation depth) as evaluated by TLC is the oracle", "Go heap growth not reflected in sp / len(stack) / context count is out of scope"]
     return ck.finish()
